@@ -208,6 +208,11 @@ func runConcOnce(c Case) (Obs, bool) {
 					ci.UnSubscribe(ids[o.K].id)
 					s, t = ids[o.K].s, ids[o.K].t
 				case "get":
+				case "close":
+					// an other operation of the communication layer (other.go), then the lookup of a "get":
+					// CloseSession does not change who is subscribed (C12_other_ops_frame), so the Coq side
+					// sees a plain lookup
+					ci.CloseSession(o.S)
 				case "deliver":
 					co.Dlv = true
 					line, err := json.Marshal(map[string]interface{}{
@@ -501,7 +506,11 @@ func genConc(r *vgen.Rng, kind string) Case {
 				prog = append(prog, Op{Op: "unsub", K: r.Intn(len(subs))}) // possibly cancelled before
 			case x < 92:
 				s := vgen.Pick(r, []string{fixed, perRound[r.Intn(k+1)], ownSess(g, r.Range(0, nOwn)), ownSess(r.Intn(nth), r.Intn(2))})
-				prog = append(prog, Op{Op: "get", S: s, T: vgen.Pick(r, types)})
+				what := "get"
+				if r.Chance(1, 3) {
+					what = "close" // CloseSession(s) by this goroutine, then the lookup
+				}
+				prog = append(prog, Op{Op: what, S: s, T: vgen.Pick(r, types)})
 			default:
 				s := vgen.Pick(r, []string{fixed, perRound[r.Intn(k+1)], ownSess(g, r.Range(0, nOwn))})
 				prog = append(prog, Op{Op: "deliver", S: s, T: vgen.Pick(r, types)})
